@@ -141,6 +141,12 @@ def check_matrix(case, ctx):
         for c in SHIFTS + ([800.0] if T <= 2 else []):      # +800: beyond the overflow limit of a naive exp() in float64
             for m in range(1, 2 ** T):
                 subsets.append([c if (m >> t) & 1 else 0.0 for t in range(T)])
+        # -120: the whole frame ends up far BELOW the floor that pruned entries are given (-80); only frames in which every class is stored can
+        # be shifted that far (a pruned entry stays at the floor, so the frame would not be shifted as a whole)
+        full = [t for t, r in enumerate(rows) if all(v is not None for v in ROWS[r])]
+        for m in range(1, 2 ** len(full)):
+            subsets.append([-120.0 if t in full and (m >> full.index(t)) & 1 else 0.0 for t in range(T)])
+            ctx.tag('frame-shifted-below-the-floor-of-pruned-entries')
 
     # ---- page-level line confidence and the confident-line test
     clc = float(PageParser.compute_line_confidence(line))
@@ -424,6 +430,6 @@ def describe(tier):
         'assumptions': ['tolerance 1e-9 on shift invariance and normalisation', 'alignment is computed once and reused for the shifted copy, '
                         'so that round-off cannot flip a tie in the alignment'],
         'min_nontrivial': 100,
-        'required_tags': ['cropped-window-call', 'float32-logits', 'lines-with-more-than-1000-frames', 'logits-reassigned-on-a-live-line', 'aligned-ctc-line', 'one-hot-line', 'one-frame-per-label-line', 'threshold-grid-splits',
+        'required_tags': ['frame-shifted-below-the-floor-of-pruned-entries', 'cropped-window-call', 'float32-logits', 'lines-with-more-than-1000-frames', 'logits-reassigned-on-a-live-line', 'aligned-ctc-line', 'one-hot-line', 'one-frame-per-label-line', 'threshold-grid-splits',
                           'bag-weight-changed-between-queries'],
     }
